@@ -1,0 +1,13 @@
+//go:build verif
+
+// Contracts for package processor, checked by /verif (govc). Comment-only file: with
+// the verif tag off it is not part of the build, with it on it adds nothing but this
+// package clause.
+package processor
+
+//@ func CalculateQuorum(n int) (q int)
+//@   props C07
+//@   requires [small] 0 <= n && n <= 922337203685477580
+//@   ensures  [formula] q == 2*n/3 + 1
+//@   nopanic
+//@   replay processor_CalculateQuorum.go.tmpl
